@@ -265,3 +265,47 @@ func ContextOf(s *drive.Shard, m *model.Collection, prop string) (VecContext, er
 	}
 	return VecContext{M: m, Bucket: vb, Oracle: o, Points: pv}, nil
 }
+
+// CheckPQCodes: once a product quantiser is trained every stored vector carries
+// a code of NumSub bytes below NumCentroids, and a point written after training
+// (ids in post) carries, per sub-vector, a centroid no farther than any other.
+// Points present at training time keep the label of the last k-means
+// assignment step, which need not be nearest to the final centroids.
+func CheckPQCodes(c VecContext, prop string, post map[uuid.UUID]bool) error {
+	p := c.Oracle.PQ
+	if p == nil {
+		return nil
+	}
+	for id, d := range c.M.Docs {
+		vec, ok := model.FieldVector(d, prop)
+		if !ok {
+			continue
+		}
+		code, ok := c.Bucket.Codes[c.Points.IdToNode[id]]
+		if !ok || len(code) != p.NumSub {
+			return fmt.Errorf("point %s has no %d-byte product code after training (code %v)", id, p.NumSub, code)
+		}
+		for sv := 0; sv < p.NumSub; sv++ {
+			if int(code[sv]) >= p.NumCentroids {
+				return fmt.Errorf("point %s: code %d of sub-vector %d is not one of the %d centroids", id, code[sv], sv, p.NumCentroids)
+			}
+		}
+		if !post[id] {
+			continue
+		}
+		for sv := 0; sv < p.NumSub; sv++ {
+			sub := vec[sv*p.SubLen : (sv+1)*p.SubLen]
+			chosen := int(code[sv])
+			start := sv*p.NumCentroids*p.SubLen + chosen*p.SubLen
+			dChosen, tolC, _ := model.RefDistance(p.DistMetric, sub, p.Centroids[start:start+p.SubLen])
+			for k := 0; k < p.NumCentroids; k++ {
+				s2 := sv*p.NumCentroids*p.SubLen + k*p.SubLen
+				dk, tolK, _ := model.RefDistance(p.DistMetric, sub, p.Centroids[s2:s2+p.SubLen])
+				if dk+tolK+tolC < dChosen {
+					return fmt.Errorf("point %s written after training carries centroid %d for sub-vector %d (distance %v) although centroid %d is nearer (%v)", id, chosen, sv, dChosen, k, dk)
+				}
+			}
+		}
+	}
+	return nil
+}
